@@ -4,7 +4,11 @@ pub struct Rng(pub u64);
 
 impl Rng {
     pub fn new(seed: u64) -> Self {
-        Rng(seed.wrapping_mul(0x9E3779B97F4A7C15).wrapping_add(0x1234_5678_9ABC_DEF1))
+        // scramble the seed so that consecutive seeds give unrelated streams
+        let mut r = Rng(seed ^ 0x1234_5678_9ABC_DEF1);
+        let a = r.next();
+        let b = r.next();
+        Rng(a ^ b.rotate_left(17))
     }
     pub fn next(&mut self) -> u64 {
         self.0 = self.0.wrapping_add(0x9E3779B97F4A7C15);
@@ -31,7 +35,8 @@ impl Rng {
         &v[self.below(v.len())]
     }
     pub fn fork(&mut self) -> Rng {
-        Rng(self.next())
+        let a = self.next();
+        Rng::new(a)
     }
     pub fn shuffle<T>(&mut self, v: &mut Vec<T>) {
         for i in (1..v.len()).rev() {
